@@ -106,6 +106,9 @@ class Store:
         self.recent_created = []              # paths created during this run, oldest first
         self.recent_removed = []              # (path, info) removed during this run
         self.stale_now = False                # set for the duration of one STALE listing
+        self.open_writes_at_crash = {}
+        self.conflicts = []                   # (kind, relpath): a task touching a file that
+                                              # another task has open for writing
         self.max_delay_until = 0.0
 
     # -- helpers
@@ -224,6 +227,7 @@ class SimFS(AbstractFileSystem):
         if kind == "CRASH":
             st.fire("CRASH")
             st.frozen = True
+            st.open_writes_at_crash = dict(st.open_writes)   # in-flight writes that stay torn
             raise SimCrash(f"crash at op {k} {op} {rel}")
         if kind == "EIO":
             st.fire("EIO")
@@ -456,8 +460,14 @@ class SimFS(AbstractFileSystem):
                 self.rm(x, recursive=recursive, maxdepth=maxdepth)
             return
         p = self._strip_protocol(path)
-        return self._op("rm", p, lambda: self.store.local.rm(p, recursive=recursive,
-                                                             maxdepth=maxdepth))
+        st = self.store
+
+        def do():
+            for q in list(st.open_writes):
+                if q == p or q.startswith(p + "/"):
+                    st.conflicts.append(("remove-while-open-for-write", st.rel(q)))
+            return st.local.rm(p, recursive=recursive, maxdepth=maxdepth)
+        return self._op("rm", p, do)
 
     def mv(self, path1, path2, recursive=True, maxdepth=None, **kwargs):
         p1 = self._strip_protocol(path1)
@@ -487,6 +497,8 @@ class SimFS(AbstractFileSystem):
             def do():
                 if st.ghost_info(p) is not None and not os.path.exists(p):
                     raise FileNotFoundError(errno.ENOENT, "deleted (stale listing)", p)
+                if st.open_writes.get(p):
+                    st.conflicts.append(("read-while-open-for-write", st.rel(p)))
                 return SimReadFile(self, p)
             return self._op("open-r", p, do)
 
@@ -495,6 +507,8 @@ class SimFS(AbstractFileSystem):
                 raise IsADirectoryError(errno.EISDIR, "Is a directory", p)
             if not os.path.isdir(os.path.dirname(p)):
                 raise FileNotFoundError(errno.ENOENT, "No such directory", os.path.dirname(p))
+            if st.open_writes.get(p):
+                st.conflicts.append(("two-writers", st.rel(p)))
             return SimWriteFile(self, p, append=("a" in mode))
         return self._op("open-w", p, dow)
 
